@@ -105,6 +105,14 @@ CONTRACTS['EFLRSet._make_body_bytes[ZoneSet]'] = dict(
              ('set-template-objects', "implies(len(self._eflr_item_list) > 0, result == ((bytes([248]) + enc_ident('ZONE') + enc_ident(self.set_name)) "
               f"if ({_NAMED}) else (bytes([240]) + enc_ident('ZONE'))) + template_bytes(self) + concat_item_bodies(self._eflr_item_list))")])
 
+# C09 "each (type, name) at most once and never empty": a set that holds no object (e.g. one left behind by a rejected add_* call) has
+# no record at all - stated for the concretely empty list as well, so that it is decided whatever shape the item loop takes
+CONTRACTS['EFLRSet._make_body_bytes[ZoneSet,no-items]'] = dict(
+    target='EFLRSet._make_body_bytes', self_class='ZoneSet', props=['C09', 'C04', 'C12'],
+    self_fields=dict(SET_FIELDS, _eflr_item_list='list[int]*0'), params={}, returns='bytes',
+    requires=["self._set_type_struct == enc_ident('ZONE')"],
+    ensures=[('empty-set-has-no-record', "result == b''")])
+
 # template of a set = one label-only component per schema attribute of its first object, in schema order
 for _n in (1, 2):
     CONTRACTS[f'EFLRSet._make_template_bytes[ZoneSet,{_n}-items]'] = dict(
